@@ -144,10 +144,31 @@ def collect_lets(body_value):
             assigned.add(n["l"]["var"])
     for v in assigned:
         lets.pop(v, None)
-    # assigned variables: remember every value they are given
+    # assigned variables: remember every value they are given (scheme 5: and the `for` loops the assignment sits in — how often an
+    # accumulator is bumped is part of what it holds; mutation scan: `for _ in 0..n` -> `1..n` in Input::skip left the key unchanged)
+    loops_of = {}
+    if _SCHEME >= 5:
+        def rec(n, fors):
+            if n["k"] == "match" and n.get("src") == "for" and n["scrut"].get("args"):
+                src = n["scrut"]["args"][0]
+                while src["k"] in ("addr_of", "use", "cast"):
+                    src = src["e"]
+                # counting loops only (`a..b`): for a loop over a collection the drawn element (`each(src)`) already names the source
+                if src["k"] == "struct" and "ops::range::Range" in ((src.get("res") or {}).get("path") or ""):
+                    fors = fors + [src]
+            if n["k"] in ("assign", "assign_op"):
+                loops_of[id(n)] = fors
+            for ch in children(n):
+                rec(ch, fors)
+        rec(body_value, [])
     for n in walk(body_value):
         k = n["k"]
         if k in ("assign", "assign_op") and n["l"]["k"] == "local" and n["l"]["var"] in assigned:
+            op = n.get("op", "=")
+            fs_ = loops_of.get(id(n)) or []
+            if fs_:
+                lets.setdefault(n["l"]["var"], ("mut", []))[1].append((op, n["r"], fs_))
+                continue
             lets.setdefault(n["l"]["var"], ("mut", []))[1].append((n.get("op", "="), n["r"]))
         if k == "block":
             for s in n.get("stmts", []):
@@ -160,7 +181,7 @@ ITER_ADAPTERS = ("peekable", "enumerate", "iter", "into_iter", "by_ref", "iter_m
 ITER_DRAW = ("peek", "next", "peek_mut")
 
 
-_SCHEME = 4      # key scheme version; lowered only by the key-migration script (3 = before `match S {Some(v) => v, None => diverge}` as `(S)?`, 2 = before if-diverge / !! / bool::then guards, 1 = before each(..) and plain bool guards)
+_SCHEME = 5      # key scheme version; lowered only by the key-migration script (4 = before `@for(range)` on accumulator updates, 3 = before `match S {Some(v) => v, None => diverge}` as `(S)?`, 2 = before if-diverge / !! / bool::then guards, 1 = before each(..) and plain bool guards)
 
 
 _CRATE = None     # the crate whose sites are being keyed (set by sites()); lets iter_source see through single-expression wrappers
@@ -252,7 +273,12 @@ def short_descr(c, e, depth=0):
         if d is not None and depth < 7:
             kind, init = d
             if kind == "mut":
-                return "%s<%s>" % (_nm(e), "; ".join("%s %s" % (op, short_descr(c, r, depth + 3)) for op, r in init))
+                def one(x):
+                    txt = "%s %s" % (x[0], short_descr(c, x[1], depth + 3))
+                    if len(x) > 2:
+                        txt += " @for(%s)" % ",".join(short_descr(c, f, depth + 3) for f in x[2])
+                    return txt
+                return "%s<%s>" % (_nm(e), "; ".join(one(x) for x in init))
             if kind in ("each", "part") and _SCHEME >= 2:
                 src = iter_source(init, kind == "each")
                 if src is not None:
